@@ -149,9 +149,46 @@ def run(tier):
                 run_.judge({"sql": sql, "dialect": "non-validating", "default_schema": dsch, "tags": exp["tags"]}, "parsers_disagree_on_tables",
                            {"non_validating": {"source": v[0], "target": v[1]}, "sqlfluff_dialects": {"source": ref[0], "target": ref[1]},
                             "ast_meaning": {"read": exp["read"], "write": exp["write"]}}, kf_id=kfid)
+    catalog_pass(run_, analyzers, tier)
     run_.extra.update({"accepting_sqlfluff_dialects_histogram": dict(sorted(accepted_hist.items())), "analyzers": analyzers})
     run_.assumptions = ["identifiers are keywords in no dialect, so acceptance depends on syntax only", "InvalidSyntax/UnsupportedStatement = not accepted by that analyzer"]
     return run_.finish()
+
+
+def catalog_pass(run_, analyzers, tier):
+    """core statements analysed with a catalog (non-empty metadata provider) under every dialect: metadata-dependent paths (star expansion, unqualified
+    attribution, a later select item spelled like an earlier item's alias, positional naming) must not depend on the dialect either"""
+    forms = []
+    for i in range(3 if tier == "quick" else 12):
+        md = {f"<default>.src_c{i}": ["a", "b", "c", "k"], f"<default>.oth_c{i}": ["k", "v", "w"], f"sa.tgt_k{i}": ["t1", "t2"]}
+        forms += [
+            (f"insert into tgt_c{i} select a as x, x + b as y from src_c{i}", md),
+            (f"create table tgt_c{i} as select s.a as v, v + s.b as total, total * 2 as dbl from src_c{i} s", md),
+            (f"insert into tgt_c{i} select * from src_c{i} s inner join oth_c{i} o on s.k = o.k", md),
+            (f"create table tgt_c{i} as select a, v, w from src_c{i} inner join oth_c{i} on src_c{i}.k = oth_c{i}.k", md),
+            (f"insert into sa.tgt_k{i} select a, b from (select * from src_c{i}) d", md),
+            (f"insert into tgt_c{i} select d.* from (select a, b as x from src_c{i}) d; insert into fin_c{i} select * from tgt_c{i}", md),
+        ]
+    cases = [{"sql": sql, "dialect": d, "want": [], "metadata": md, "provider": "dummy"} for sql, md in forms for d in analyzers if d != "non-validating"]
+    run_.need("catalog_statements_compared")
+    with Pool() as pool:
+        recs = pool.map("vlib.observe:run_case", cases, timeout=180)
+    by = collections.OrderedDict()
+    for c, (s_, r) in zip(cases, recs):
+        if run_.pool_status(s_, r, {"sql": c["sql"], "dialect": c["dialect"]}) and r["outcome"] == "ok":
+            by.setdefault(c["sql"], {})[c["dialect"]] = (table_view(r), tuple(sorted(map(tuple, r["column_pairs"]))))
+    for sql, views in by.items():
+        run_.case(evidence.sha((sql, "catalog")), nontrivial=len(views) >= 2)
+        if len(views) < 2:
+            continue
+        run_.observe("catalog_statements_compared")
+        run_.observe("dialect_pairs_compared", len(views) * (len(views) - 1) // 2)
+        ref = collections.Counter(views.values()).most_common(1)[0][0]
+        for d, v in sorted(views.items()):
+            if v != ref:
+                run_.judge({"sql": sql, "dialect": d, "with_catalog": True}, "dialect_disagrees_with_catalog",
+                           {"dialect": d, "pairs_minus_others": sorted(set(v[1]) - set(ref[1]))[:8], "others_minus_pairs": sorted(set(ref[1]) - set(v[1]))[:8],
+                            "tables": v[0], "others_tables": ref[0], "agreeing_dialects": sorted(x for x, y in views.items() if y == ref)[:6]}, kf_id=None)
 
 
 KF_IDS = {f["id"] for f in evidence.load_kf().get("findings", []) if PID in f.get("properties", [])}
